@@ -22,11 +22,17 @@ claim("C02", "proof", T1 + " (character-class theory + exhaustive code-point enu
       "rooting interpretation are inverse tables. Bounded (T2): the full write/read round trip.",
       "tokenizer/parser state machines and xml.etree are not proved; the round trip itself is bounded",
       "DESIGN.md section 5 C02")
-claim("C16", "proof", "contract-based frame verification by a modular effect analysis of the real AST (no solver); " + T2,
+claim("C16", "proof", "contract-based frame verification by a modular effect analysis of the real AST; region contract on the Fitch loop of fitch_down_pass "
+      "(VCs generated from the real AST, z3: sets as arrays, loop invariant); Lean 4 + Mathlib theorem for optimality; " + T2,
       "Proved (T1, effects): parsimony_score reaches no read/write of the node-attribute state-set cache with the arguments it passes "
-      "(purity frame: the score depends only on tree and matrix). Bounded (T2): minimality against a brute-force minimum, per-character sums, "
-      "rooting/child-order invariance, history independence.",
-      "callees resolved by name inside dendropy.model.parsimony; Fitch optimality (Hartigan) not re-proved",
+      "(purity frame: the score depends only on tree and matrix). Proved (T1, z3): the loop of fitch_down_pass that combines two children's state-set lists "
+      "yields, per character, the intersection if non-empty else the union, adds exactly the weight of each character whose sets are disjoint to the score and "
+      "to the per-character list (so the per-character scores add up to the total), never indexes out of range and leaves its inputs alone. Proved (Lean): "
+      "that rule applied at every internal node of a fully bifurcating tree gives the minimum number of changes over all assignments of states to nodes "
+      "(ambiguous cells resolved freely), independent of child order. Bounded (T2): the glue between the two (one application per internal node, children first, "
+      "leaf sets from the matrix), minimality end-to-end against a brute-force minimum, rooting invariance, history independence.",
+      "callees resolved by name inside dendropy.model.parsimony; Python set/list semantics of the region as stated in contracts/C16fitch.py; the glue between the "
+      "region contract and the Lean theorem is not proved; characters independent, weights >= 0",
       "DESIGN.md section 5 C16")
 claim("C18", "proof", "contract-based frame verification by a modular effect analysis of the real AST (no solver); " + T2,
       "Proved (T1, effects): every simulator named by the property, and transitively every callee declaring an rng parameter, draws only from "
@@ -72,19 +78,24 @@ claim("C04", "proof", T1 + " (sets of split masks; default-argument and stalenes
 claim("C05", "proof", T1 + " (dictionaries as maps incl. collections.defaultdict, for-over-dict loops with a ghost set of visited keys, reals for floats); " + T2,
       "Proved (T1, first sentence of the property): the SplitDistribution accumulator -- add_split_count, count_splits_on_tree (every split of the tree's encoding gains the tree's "
       "weight, 1.0 when weights are absent or unused; one tree counted; no other split changes), update (pointwise sum of counts and totals), calc_normalization_weight, "
-      "calc_freqs (table has exactly the counted splits, each count / total weight), _get_split_frequencies (never stale), __getitem__ (0.0 for a split in no tree). "
+      "calc_freqs (table has exactly the counted splits, each count / total weight), _get_split_frequencies (never stale), __getitem__ (0.0 for a split in no tree); "
+      "the two summary tables (edge lengths, node ages) are never served stale: their getters return a table computed from the trees counted NOW, under a cache-protocol "
+      "invariant (one shared staleness counter) that counting, merging and the frequency functions preserve. "
       "Bounded (T2): consensus all-and-only / maximal-greedy, spanning, rooting, support / length / age summaries (also after incremental filling), collapse, maximum credibility.",
       "ASSUMED contract: Tree.encode_bipartitions lists every split once (C01; fails exactly on the recorded finding C05-two-leaf-unrooted); floats are reals; with zero trees "
-      "counted the table holds 1.0 (taken from the code: the fraction is undefined); consensus construction (Tree.from_split_bitmasks), summarisation and scores are bounded only",
+      "counted the table holds 1.0 (taken from the code: the fraction is undefined); the CONTENT of the summary tables is abstracted (calc_* recompute from every value list: "
+      "ASSUMED, with the frame 'assigns nothing but its own table' checked on the real bodies); consensus construction (Tree.from_split_bitmasks), summarisation and scores are bounded only",
       "DESIGN.md section 5 C05, section 9")
 claim("C06", "proof", T1 + " (lists modelled by their length; the summary as maps; Lean 4 + Mathlib merge lemmas); " + T2,
       "Proved (T1): TreeArray.update/extend/__iadd__ keep the four per-tree lists equally long, grow them by the stated amount, never refuse arrays compatible in the property's "
       "sense (equal settings; equal rooting or one side empty with undefined rooting), and merge the summaries componentwise (per-split counts, tree and weight totals added: "
-      "SplitDistribution.update under contract); add_tree/append/insert/validate_rooting keep alignment. Lean: componentwise addition makes the merged view independent of "
+      "SplitDistribution.update under contract) while the ARGUMENT keeps its trees and its summary; a + b is a new collection holding both operands' trees and the sum of their "
+      "summaries, the operands unchanged; add_tree/append/insert/validate_rooting keep alignment; no two collections ever share a per-tree list object (ownership, on the AST "
+      "of the whole class); the SumTrees worker/collation code never takes a polled 'empty' for 'no work left'. Lean: componentwise addition makes the merged view independent of "
       "arrival order, of the partition into sub-collections, and of empty sub-collections. Bounded (T2): every partition/arrival order/interleaving end to end, content "
       "alignment, SumTrees collation loop with fake queues, CLI smoke.",
-      "list CONTENTS and the per-split edge-length / node-age lists are abstracted at T1 (bounded); OS scheduling and Queue delivery are out of reach; an empty array having the "
-      "zero view is bounded (idle-worker scope)",
+      "list CONTENTS and the per-split edge-length / node-age lists are abstracted at T1 (bounded); TreeArray.__init__ is an ASSUMED allocation contract; OS scheduling is out of "
+      "reach, multiprocessing.Queue is ASSUMED to its documented contract",
       "DESIGN.md section 5 C06, section 9")
 claim("C07", "proof", T1 + " (theory B for Edge.invert; constant-propagated store closure for the rooting flag); " + T2,
       "Proved (T1): Edge.invert -- the only structural step of a re-seeding chain -- moves the head out of the tail's child list, appends the tail to the head's, leaves every other "
@@ -148,7 +159,10 @@ claim("C17", "proof", T1 + " (heap theory B with a traversal view, reals for flo
       "Proved (T1, ages and the ultrametricity verdict): at a normal return of Tree.calc_node_ages (no forcing, no caller-supplied age function) every leaf has age 0.0, every internal "
       "node has the age of its first child plus that child's edge length (a missing length counts 0), and when the check is on (precision a non-negative number) every other child "
       "gives the same age to within the precision; when UltrametricityError is raised some node's children disagree by more than the precision -- never otherwise, and no other "
-      "exception escapes. Bounded (T2, deciding for the rest): ages equal distances to the tips, depths, set_edge_lengths_from_node_ages, num_lineages_at, forcing options, "
+      "exception escapes. Proved (T1, AST, \"the given precision\"): every function or class of the library that accepts an ultrametricity precision (parameter, "
+      "constructor attribute or **kwargs key) hands an expression reading it to every precision-taking callable it calls (calc_node_ages, node_ages, internal_node_ages, "
+      "the coalescent frame functions, pybus_harvey_gamma, SplitDistribution / TreeArray / ... constructors): one obligation per call site. "
+      "Bounded (T2, deciding for the rest): ages equal distances to the tips, depths, set_edge_lengths_from_node_ages, num_lineages_at, forcing options, "
       "both sides of every precision natively, every statistic x normalisation against independent definitions, child-order invariance.",
       "ASSUMED: postorder_node_iter yields every node once, children before parents (C15); tree well-formedness (C03); floats are reals; forcing options, set_node_age_fn, "
       "the statistics of treemeasure are bounded only",
@@ -160,7 +174,8 @@ claim("C19", "proof", T1 + " (dictionaries as maps with object allocation for th
       "TaxonNamespaceIdentityError is raised exactly when the namespaces are different objects; CharacterDataSequence.__init__ / extend lengths. "
       "Proved (T1, termination): set_at; every while loop of charmatrixmodel.py can change its guard or leave; the concatenate label loop (step + frame obligations, "
       "Lean lemma injective_escapes_finite). Proved (T1, removals): remove_sequences / discard_sequences leave exactly the rows not named and keep_sequences exactly the rows named "
-      "(any iterable of taxa, absent and repeated taxa included), every remaining row keeps its sequence object and length; discard_sequences never raises. "
+      "(any iterable of taxa, absent and repeated taxa included), every remaining row keeps its sequence object and length; discard_sequences never raises; "
+      "pack passes value, size and append on to fill. "
       "Bounded (T2): cell contents, padding (fill/pack), column selection, concatenation, the self-as-argument case, wall-clock guards.",
       "a sequence is modelled by the length of its value list; `self.__class__.character_sequence_type` is read as a CharacterDataSequence class (AST obligation over every assignment); "
       "guard-progress is a necessary condition only; injectivity of the '%s_%03d' label format in the counter is an arithmetic assumption", "DESIGN.md section 5 C19, section 9")
